@@ -230,7 +230,7 @@ func init() {
 	register(&Property{ID: "C13", Level: "exploration", QuickS: 100, ThoroughS: 400,
 		Assume: []string{"composition of the real galaxy-ipam Bind (world model of the API server), the real daemon request path with a recording plugin, and the plugins' own decoder cni/ipam.Allocate",
 			"masks /8 /16 /24 /30 /32, gateway first/last host, VLAN ids {0,1,2,4094,4095,65535}; k in {1,2,3} IPs from pools with different settings"},
-		Rule: "every single-pool setting (60) and ordered pairs/triples over a 6-setting menu: Bind -> binding annotation -> pod annotation -> daemon ADD -> CNI_ARGS recorded by the plugin -> Allocate(); the decoded (address, prefix length, gateway, VLAN) sequence must equal what was configured for the allocated, persisted IPs, in request order; plus 66 two-configuration cases (a pod bound, the pool's settings replaced or a pool added in front of it, a second pod bound): the second pod's plugin sees the settings in force; distinct/non-trivial = distinct pool settings",
+		Rule: "every single-pool setting (60) and ordered pairs/triples over a 6-setting menu: Bind -> binding annotation -> pod annotation -> daemon ADD -> CNI_ARGS recorded by the plugin -> Allocate(); the decoded (address, prefix length, gateway, VLAN) sequence must equal what was configured for the allocated, persisted IPs, in request order; the pair/triple cases again with k pods that request no range (the allocator picks among pools that serve one node subnet with different settings); plus 66 two-configuration cases (a pod bound, the pool's settings replaced or a pool added in front of it, a second pod bound): the second pod's plugin sees the settings in force; distinct/non-trivial = distinct pool settings",
 		Jobs: func(tier string) []Job {
 			var jobs []Job
 			for s := 0; s < 8; s++ {
@@ -239,7 +239,7 @@ func init() {
 			for _, sc := range c13ConcurrentScenarios(tier) {
 				jobs = append(jobs, ExploreJob("C13", sc, oracleC13Concurrent))
 			}
-			return append(jobs, c13ReloadJob(tier))
+			return append(jobs, c13ReloadJob(tier), c13NoRangeJob(tier))
 		}})
 	replayers["C13"] = func(tier string, v coop.Violation) int {
 		if len(v.Choices) > 0 {
